@@ -213,14 +213,14 @@ roundtrip!(c19_t_roundtrip_n6, 6, 10);
 // ---------------------------------------------------------------------------------------------
 const CRC_LIB: crc::Crc<u32> = crc::Crc::<u32>::new(&crc::CRC_32_ISO_HDLC);
 
-/// `sym` = number of leading root bytes that are symbolic (rest zero); `bitwise` = compare against the
+/// `sym` = number of trailing root bytes that are symbolic (rest zero); `bitwise` = compare against the
 /// harness' bitwise CRC (independent oracle) instead of the `crc` crate run over the stored payload
 fn from_decoded_body(attrs: Vec<AddrAttrProperty>, max: usize, sym: usize, bitwise: bool) {
     let any_root: [u8; 28] = kani::any();
     let mut root = [0u8; 28];
     let mut i = 0;
     while i < 28 {
-        if i < sym {
+        if i + sym >= 28 {
             root[i] = any_root[i];
         }
         i += 1;
@@ -247,7 +247,7 @@ fn from_decoded_body(attrs: Vec<AddrAttrProperty>, max: usize, sym: usize, bitwi
     assert!(bytes[3] == root[0] && bytes[30] == root[27], "root hash is embedded");
     assert!(bytes[max - 1] == t, "address type is the last item");
     kani::cover!(t == 2, "redeem type");
-    kani::cover!(root[0] == 0xff, "symbolic root byte");
+    kani::cover!(root[27] == 0xff, "symbolic root byte");
     core::mem::forget(a);
 }
 
@@ -256,8 +256,17 @@ fn from_decoded_body(attrs: Vec<AddrAttrProperty>, max: usize, sym: usize, bitwi
 #[kani::unwind(36)]
 #[kani::stub(std::fmt::format, crate::stubs::fmt_format_stub)]
 #[kani::stub(pallas_codec::minicbor::encode::Error::write, crate::stubs::mcb_write_err_stub)]
-fn c19_q_from_decoded_noattr() {
+fn c19_t_from_decoded_noattr() {
     from_decoded_body(Vec::new(), 33, 28, false);
+}
+
+/// bound: as c19_t_from_decoded_noattr with only the last 4 root bytes and the addrtype symbolic (other root bytes zero), unwind 36
+#[kani::proof]
+#[kani::unwind(36)]
+#[kani::stub(std::fmt::format, crate::stubs::fmt_format_stub)]
+#[kani::stub(pallas_codec::minicbor::encode::Error::write, crate::stubs::mcb_write_err_stub)]
+fn c19_q_from_decoded_noattr_sym4() {
+    from_decoded_body(Vec::new(), 33, 4, false);
 }
 
 /// bound: as above with exactly one attribute AddrDistr::BootstrapEraDistribution (encoded payload 36 bytes), unwind 39
@@ -269,15 +278,6 @@ fn c19_t_from_decoded_one_attr() {
     let mut v = Vec::with_capacity(1);
     v.push(AddrAttrProperty::AddrDistr(AddrDistr::BootstrapEraDistribution));
     from_decoded_body(v, 36, 28, false);
-}
-
-/// bound: no attributes, only the first 2 root bytes and the addrtype symbolic (other root bytes zero); independent bitwise CRC oracle, unwind 36
-#[kani::proof]
-#[kani::unwind(36)]
-#[kani::stub(std::fmt::format, crate::stubs::fmt_format_stub)]
-#[kani::stub(pallas_codec::minicbor::encode::Error::write, crate::stubs::mcb_write_err_stub)]
-fn c19_q_from_decoded_bitwise_sym2() {
-    from_decoded_body(Vec::new(), 33, 2, true);
 }
 
 /// ties the trusted `crc` crate (CRC_32_ISO_HDLC, what from_decoded calls) to the bitwise reference used by the parse harnesses
